@@ -61,20 +61,11 @@ func runWorkload(w c17Workload) string {
 	if err != nil {
 		return "harness: bad model encoding"
 	}
-	// sequential baseline on a fresh model
-	base := loadBytes(b)
-	if base.err != nil || base.panicked {
-		return fmt.Sprintf("model does not load: %v %v", base.err, base.panicVal)
-	}
-	want := make([][]runResult, len(w.Feeds))
-	for g := range w.Feeds {
-		for _, f := range w.Feeds[g] {
-			want[g] = append(want[g], runModel(base.m, decodeFeed(f)))
-		}
-	}
+	// The concurrent phase comes first and the sequential baseline after it: whatever the library
+	// initialises lazily (per process, per model) is then first touched by overlapping Runs.
 	shared := loadBytes(b)
 	if shared.err != nil || shared.panicked {
-		return "model does not load a second time"
+		return fmt.Sprintf("model does not load: %v %v", shared.err, shared.panicVal)
 	}
 	before := snapTensors(gonnx.VerifParameters(shared.m))
 	got := make([][]runResult, len(w.Feeds))
@@ -117,6 +108,17 @@ func runWorkload(w c17Workload) string {
 	for _, e := range loadErrs {
 		if e != "" {
 			return e
+		}
+	}
+	// sequential baseline on a fresh model ("what it returns when executed alone")
+	base := loadBytes(b)
+	if base.err != nil || base.panicked {
+		return fmt.Sprintf("model does not load a second time: %v %v", base.err, base.panicVal)
+	}
+	want := make([][]runResult, len(w.Feeds))
+	for g := range w.Feeds {
+		for _, f := range w.Feeds[g] {
+			want[g] = append(want[g], runModel(base.m, decodeFeed(f)))
 		}
 	}
 	for g := range got {
